@@ -62,7 +62,7 @@ def solve(pc, goal, timeout_ms=None, want_model=True):
     t0 = time.time()
     # 1. E-matching only (fast; refutations are sound, candidate models are not)
     s1 = z3.SimpleSolver()
-    s1.set("timeout", min(timeout_ms, 4000))
+    s1.set("timeout", min(timeout_ms, 1500))
     s1.set("mbqi", False)
     for f in pc:
         s1.add(f)
@@ -100,6 +100,41 @@ def solve(pc, goal, timeout_ms=None, want_model=True):
     return "unknown", None, "z3+cvc5", time.time() - t0, f"z3: {reason}; cvc5: {st2}"
 
 
+_PC_CACHE = {}
+
+
+def pc_refuted(pc, timeout_ms=1500):
+    key = tuple(f.get_id() for f in pc)
+    if key in _PC_CACHE:
+        return _PC_CACHE[key]
+    t0 = time.time()
+    s1 = z3.SimpleSolver()
+    s1.set("timeout", timeout_ms)
+    s1.set("mbqi", False)
+    for f in pc:
+        s1.add(f)
+    r1 = s1.check()
+    res = ("proved" if r1 == z3.unsat else "unknown", None, "z3-ematch", time.time() - t0, "")
+    if len(_PC_CACHE) > 5000:
+        _PC_CACHE.clear()
+    _PC_CACHE[key] = res
+    return res
+
+
+def quick_refute(pc, goal, timeout_ms=3000):
+    t0 = time.time()
+    s1 = z3.SimpleSolver()
+    s1.set("timeout", timeout_ms)
+    s1.set("mbqi", False)
+    for f in pc:
+        s1.add(f)
+    s1.add(z3.Not(goal))
+    r1 = s1.check()
+    if r1 == z3.unsat:
+        return "proved", None, "z3-ematch", time.time() - t0, ""
+    return "unknown", None, "z3-ematch", time.time() - t0, ""
+
+
 def cvc5_check(solver: z3.Solver, timeout_ms):
     t0 = time.time()
     try:
@@ -129,13 +164,35 @@ def _workdir():
     return d
 
 
+def oblige_named(path, base, spec, where, kind):
+    """spec: z3 Bool, or list of (name, z3 Bool) / z3 Bool"""
+    if isinstance(spec, (list, tuple)):
+        named = []
+        for i, x in enumerate(spec):
+            if isinstance(x, tuple):
+                named.append((f"{base}:{x[0]}", _zb(x[1])))
+            else:
+                named.append((f"{base}[{i}]", _zb(x)))
+        grp = Obligation(base, path.pc, z3.And(*[f for _, f in named]) if len(named) > 1 else named[0][1],
+                         where, kind)
+        grp.parts = named
+        path.obligations.append(grp)
+        for _, f in named:
+            path.pc.append(f)
+            path.sadd(f)
+        return grp
+    return path.oblige(base, _zb(spec), where, kind)
+
+
 class YieldEvent:
     def __init__(self, pc, value_z, loopvars, path_id, index, where):
         self.pc, self.value_z, self.loopvars, self.path_id, self.index, self.where = \
             pc, value_z, loopvars, path_id, index, where
 
 
-def make_args(model: Model, contract: Contract, path: Path, interp):
+def make_args(model: Model, contract: Contract, path: Path, interp, pure=False):
+    """pure=True: no forking; optionals stay symbolic (used to phrase generator-level VCs once for
+    all argument shapes)."""
     args = {}
     selfv = None
     for prm in contract.params:
@@ -143,6 +200,8 @@ def make_args(model: Model, contract: Contract, path: Path, interp):
             v = prm.make(path, interp)
         elif prm.ty is None:
             v = None
+        elif pure:
+            v = model.pure_project(interp, prm.ty, z3.Const("arg_" + prm.name, prm.ty.sort()))
         else:
             v = path.project(prm.ty, z3.Const("arg_" + prm.name, prm.ty.sort()))
         args[prm.name] = v
@@ -153,7 +212,10 @@ def make_args(model: Model, contract: Contract, path: Path, interp):
 
 
 def verify_function(model: Model, contract: Contract, timeout_ms=None, max_paths=4000,
-                    interference=None) -> FunctionReport:
+                    interference=None, forced=(), phase="all", vectors=None) -> FunctionReport:
+    """phase 'all': explore + solve; 'enumerate': explore only, solve only the generator-level
+    obligations, return the decision vectors in rep.vectors; 'solve': re-execute the given decision
+    vectors (no exploration) and solve their obligations."""
     rep = FunctionReport(contract)
     t0 = time.time()
     try:
@@ -187,12 +249,15 @@ def verify_function(model: Model, contract: Contract, timeout_ms=None, max_paths
                     path.oblige(f"yield@{node.lineno}.{nm}", _zb(f), it.where(node), "yield-extra")
             lv = list(path.ghost.get("__loopvars__", []))
             yl.append(YieldEvent(list(path.pc), z, lv, pid, len(yl), it.where(node)))
+            yl[-1].args_end = path.ghost.get("__args_end__", 0)
             events.append(yl[-1])
             if interference is not None:
                 interference.after_yield(it, cc, node)
 
         interp = Interp(path, model, fs, contract.loops, on_yield if True else None, fs.cls)
+        interp.interference = interference
         selfv, args = make_args(model, contract, path, interp)
+        path.ghost["__args_end__"] = len(path.pc)
         model.setup_path(path, interp, contract, selfv, args)
         old = path.snapshot_state()
         cc = CallCtx(path, interp, args, old, None, None, selfv, model)
@@ -236,7 +301,35 @@ def verify_function(model: Model, contract: Contract, timeout_ms=None, max_paths
                     and contract.ret_make is None:
                 pass
             if contract.post is not None:
-                path.oblige("post", _zb(contract.post(cc)), fs.where(), "post")
+                oblige_named(path, "post", contract.post(cc), fs.where(), "post")
+        if contract.gen is not None and not f.is_gen:
+            # a plain function returning an iterable (generator expression / list): compare its
+            # membership predicate with the specification
+            g = contract.gen
+            r2 = interp.deref(res)
+            if isinstance(r2, (Snapshot, SymIter)):
+                zz = z3.Const("ret_elem", g.elem_ty.sort())
+                if r2.elem_ty.sort() != g.elem_ty.sort():
+                    path.oblige("returned-iterable.element-type", z3.BoolVal(False), fs.where(), "post")
+                else:
+                    path.oblige("returned-iterable.members", z3.ForAll([zz], r2.member(zz) == _zb(g.member(cc, zz))),
+                                fs.where(), "post")
+                    if g.distinct:
+                        dz = r2.distinct if z3.is_expr(r2.distinct) else z3.BoolVal(bool(r2.distinct))
+                        path.oblige("returned-iterable.no-duplicates", dz, fs.where(), "post")
+            else:
+                from .interp import GenObj
+                from .core import ConcreteSeq
+                items = interp.concrete_items(r2)
+                if items is None:
+                    raise Unsupported(f"function with generator contract returned {type(r2).__name__}")
+                zz = z3.Const("ret_elem", g.elem_ty.sort())
+                mem = z3.Or(*[zz == path.inject(g.elem_ty, x) for x in items]) if items else z3.BoolVal(False)
+                path.oblige("returned-iterable.members", z3.ForAll([zz], mem == _zb(g.member(cc, zz))),
+                            fs.where(), "post")
+                if g.distinct and len(items) > 1:
+                    path.oblige("returned-iterable.no-duplicates",
+                                z3.Distinct(*[path.inject(g.elem_ty, x) for x in items]), fs.where(), "post")
         if contract.frame is not None:
             path.oblige("frame", _zb(contract.frame(cc)), fs.where(), "frame")
         rep.loop_events.extend(interp.loop_events)
@@ -244,7 +337,22 @@ def verify_function(model: Model, contract: Contract, timeout_ms=None, max_paths
         return ("return", res)
 
     try:
-        results = explore(run_one, model.axioms, max_paths=max_paths)
+        if phase == "solve":
+            results = []
+            for vec in vectors:
+                p = Path(vec, model.axioms)
+                try:
+                    out = run_one(p)
+                    results.append(PathResult(p, out[0], out[1]))
+                except Infeasible:
+                    pass
+                except PathEnd as e:
+                    results.append(PathResult(p, "end", e.why))
+                except PyExc as e:
+                    results.append(PathResult(p, "raise", None, e))
+            forced = forced or (True,)
+        else:
+            results = explore(run_one, model.axioms, max_paths=max_paths, forced=forced)
     except Unsupported as e:
         rep.status, rep.reason = "undecided", f"outside supported subset: {e}"
         rep.seconds = time.time() - t0
@@ -255,7 +363,11 @@ def verify_function(model: Model, contract: Contract, timeout_ms=None, max_paths
         return rep
     rep.paths = len(results)
     if not results:
-        rep.status, rep.reason = "error", "vacuous: no feasible path (precondition unsatisfiable?)"
+        if forced:
+            rep.status, rep.reason = "proved", "no path in this slice"
+            rep.vacuity = "empty-slice"
+        else:
+            rep.status, rep.reason = "error", "vacuous: no feasible path (precondition unsatisfiable?)"
         rep.seconds = time.time() - t0
         return rep
     # vacuity: at least one complete path must be satisfiable
@@ -264,36 +376,56 @@ def verify_function(model: Model, contract: Contract, timeout_ms=None, max_paths
         s = z3.SimpleSolver()
         s.set("timeout", 1000)
         s.set("mbqi", False)
-        for f in r.path.pc[:400]:
+        # the path condition proper: what was assumed/branched on before the first obligation
+        pc0 = r.path.obligations[0].pc if r.path.obligations else r.path.pc
+        for f in pc0[:400]:
             s.add(f)
         if s.check() != z3.unsat:
             vac_ok = True
             break
     rep.vacuity = "ok" if vac_ok else "FAILED"
-    if not vac_ok:
+    if not vac_ok and not forced:
         rep.status, rep.reason = "error", "vacuous: every path condition is unsatisfiable"
         rep.seconds = time.time() - t0
         return rep
     all_obs = []
+    rep.vectors = [list(r.path.taken) for r in results]
     for r in results:
         rep.dropped.extend(r.path.dropped)
         rep.assumed.extend(r.path.assumed)
+        if phase == "enumerate":
+            continue
         for ob in r.path.obligations:
             all_obs.append(ob)
     # generator-level obligations (completeness, no duplicates)
-    if contract.gen is not None and interference is None:
+    is_generator = PyFunc(fs.node, {}, fs.cls).is_gen
+    if contract.gen is not None and interference is None and is_generator and phase != "solve":
         all_obs.extend(gen_obligations(model, contract, events, results, fs))
     split_obs = []
     for ob in all_obs:
-        cj = conjuncts(ob.formula)
-        if len(cj) <= 1:
+        parts = getattr(ob, "parts", None)
+        if parts is None:
+            cj = conjuncts(ob.formula)
+            parts = [(f"{ob.name}[{i}]", cf) for i, cf in enumerate(cj)] if len(cj) > 1 else None
+        if parts is None:
             split_obs.append(ob)
+            continue
+        # an infeasible path (pc refuted by E-matching) discharges all its clauses at once
+        st, mdl, be, dt, why = pc_refuted(ob.pc)
+        if st == "proved":
+            for nm, cf in parts:
+                o2 = Obligation(nm, [], cf, ob.where, ob.kind, ob.ctx)
+                o2.presolved = ("proved", None, be + "(infeasible path)", dt / len(parts), "")
+                split_obs.append(o2)
         else:
-            for i, cf in enumerate(cj):
-                split_obs.append(Obligation(f"{ob.name}[{i}]", ob.pc, cf, ob.where, ob.kind, ob.ctx))
+            for nm, cf in parts:
+                split_obs.append(Obligation(nm, ob.pc, cf, ob.where, ob.kind, ob.ctx))
     all_obs = split_obs
     for ob in all_obs:
-        st, mdl, be, dt, why = solve(ob.pc, ob.formula, timeout_ms)
+        if getattr(ob, "presolved", None):
+            st, mdl, be, dt, why = ob.presolved
+        else:
+            st, mdl, be, dt, why = solve(ob.pc, ob.formula, timeout_ms)
         ob.status, ob.model, ob.backend, ob.seconds, ob.reason = st, mdl, be, dt, why
         rec = {"name": ob.name, "kind": ob.kind, "where": ob.where, "status": st, "backend": be,
                "seconds": round(dt, 4)}
@@ -309,7 +441,7 @@ def verify_function(model: Model, contract: Contract, timeout_ms=None, max_paths
         elif st == "unknown" and rep.status == "proved":
             rep.status = "undecided"
             rep.reason = f"solver unknown on {ob.name}: {why[:120]}"
-    if not all_obs:
+    if not all_obs and not forced and phase != "enumerate":
         rep.status, rep.reason = "error", "no obligations generated"
     rep.seconds = time.time() - t0
     return rep
@@ -323,15 +455,15 @@ def gen_obligations(model, contract, events, results, fs):
         return obs
     # a path with fresh inputs to phrase the VC over the shared input names
     path = Path([], model.axioms)
+    nbase = len(path.pc)
     interp = Interp(path, model, fs, contract.loops, None, fs.cls)
-    selfv, args = make_args(model, contract, path, interp)
+    selfv, args = make_args(model, contract, path, interp, pure=True)
     model.setup_path(path, interp, contract, selfv, args)
     old = path.snapshot_state()
     cc = CallCtx(path, interp, args, old, None, None, selfv, model)
     if contract.pre is not None:
         path.assume(_zb(contract.pre(cc)), "precondition")
     base_pc = list(path.pc)
-    nbase = len(base_pc)
     t = z3.Const("t_any", g.elem_ty.sort())
 
     def strip_nd(pc):
@@ -364,25 +496,68 @@ def gen_obligations(model, contract, events, results, fs):
                 todo.extend(f.children())
         return [v for k, v in seen.items() if k not in keep]
 
+    def eliminate_defined(conj, protect=()):
+        """One-point rule: a local constant v with a conjunct  v == term  (v not in term) is replaced
+        by term everywhere.  Returns the simplified conjunct list."""
+        conj = list(conj)
+        changed = True
+        rounds = 0
+        while changed and rounds < 50:
+            changed = False
+            rounds += 1
+            for idx, f in enumerate(conj):
+                if not (z3.is_eq(f) and f.num_args() == 2):
+                    continue
+                for a, b in ((f.arg(0), f.arg(1)), (f.arg(1), f.arg(0))):
+                    if z3.is_const(a) and a.decl().kind() == z3.Z3_OP_UNINTERPRETED and "!" in str(a) \
+                            and str(a) not in protect and not _occurs(a, b):
+                        rest = conj[:idx] + conj[idx + 1:]
+                        conj = [z3.substitute(g_, (a, b)) for g_ in rest]
+                        changed = True
+                        break
+                if changed:
+                    break
+        return conj
+
     if g.complete:
-        disj = []
+        # one completeness VC per argument shape (the decisions taken while projecting the arguments)
+        shapes = {}
+        for r in results:
+            ae = r.path.ghost.get("__args_end__", nbase)
+            conds = r.path.pc[nbase:ae]
+            key = tuple(sorted(f.get_id() for f in conds))
+            shapes.setdefault(key, (conds, []))
         for ev in events:
-            pc = strip_nd(ev.pc[nbase:]) if ev.pc[:nbase] and len(ev.pc) >= nbase else strip_nd(ev.pc)
-            body = z3.And(*(pc + [ev.value_z == t])) if pc else (ev.value_z == t)
-            # one-point rule for loop variables that are components of the yielded value
-            subs = []
-            for (x, itd) in ev.loopvars:
-                comp = find_component(ev.value_z, x, t)
-                if comp is not None:
-                    subs.append((x, comp))
-            if subs:
-                body = z3.substitute(body, *subs)
-            loc = locals_of([body], {str(t)})
-            if loc:
-                body = z3.Exists(loc, body)
-            disj.append(body)
-        goal = z3.Implies(_zb(g.member(cc, t)), z3.Or(*disj) if disj else z3.BoolVal(False))
-        obs.append(Obligation("generator.complete", base_pc, goal, fs.where(), "gen-complete"))
+            conds = ev.pc[nbase:ev.args_end]
+            key = tuple(sorted(f.get_id() for f in conds))
+            shapes.setdefault(key, (conds, []))[1].append(ev)
+        for si, (key, (conds, evs)) in enumerate(sorted(shapes.items(), key=lambda kv: str(kv[0]))):
+            disj = []
+            cond_ids = set(key)
+            for ev in evs:
+                pc = strip_nd(ev.pc[nbase:])
+                conj = []
+                for f in pc:
+                    conj.extend(conjuncts(f))
+                conj.append(ev.value_z == t)
+                subs = []
+                for (x, itd) in ev.loopvars:
+                    comp = find_component(ev.value_z, x, t)
+                    if comp is not None:
+                        subs.append((x, comp))
+                if subs:
+                    conj = [z3.substitute(f, *subs) for f in conj]
+                conj = eliminate_defined(conj, {str(t)})
+                base_ids = {f.get_id() for f in base_pc} | cond_ids
+                conj = [f for f in conj if f.get_id() not in base_ids]
+                body = z3.And(*conj) if len(conj) > 1 else (conj[0] if conj else z3.BoolVal(True))
+                loc = locals_of([body], {str(t)})
+                if loc:
+                    body = z3.Exists(loc, body)
+                disj.append(body)
+            goal = z3.Implies(_zb(g.member(cc, t)), z3.Or(*disj) if disj else z3.BoolVal(False))
+            obs.append(Obligation(f"generator.complete[shape{si}]", base_pc + list(conds), goal, fs.where(),
+                                  "gen-complete"))
     if g.distinct:
         # pairwise: two yield events with equal values must be the same event & same loop elements
         for i, a in enumerate(events):
@@ -411,6 +586,23 @@ def gen_obligations(model, contract, events, results, fs):
                 obs.append(Obligation(f"generator.no-duplicates[{i},{j}]", base_pc, goal,
                                       f"{a.where} / {b.where}", "gen-distinct"))
     return obs
+
+
+def _occurs(a, term):
+    todo = [term]
+    seen = set()
+    while todo:
+        x = todo.pop()
+        if x.get_id() in seen:
+            continue
+        seen.add(x.get_id())
+        if x.eq(a):
+            return True
+        if z3.is_quantifier(x):
+            todo.append(x.body())
+        elif z3.is_app(x):
+            todo.extend(x.children())
+    return False
 
 
 def find_component(value_z, x, t):
